@@ -477,6 +477,19 @@ func (fc *fnCtx) mexpr(ex ast.Expr) (string, bool, error) {
 		// conversions
 		if tv, ok := fc.p.TypesInfo.Types[x.Fun]; ok && tv.IsType() && len(x.Args) == 1 {
 			if lt, err := leanType(tv.Type); err == nil && lt == "Int" {
+				if isFloat(fc.p.TypesInfo.TypeOf(x.Args[0])) {
+					// int(<float64 expression>): the float arithmetic is Lean `Float` (IEEE binary64), opaque to proofs
+					f, err := fc.fexpr(x.Args[0])
+					if err != nil {
+						return "", true, err
+					}
+					needTie(fc.m.module)
+					r := "(Gzx.GoM.floatToInt " + f + ")"
+					if n := unsignedBits(tv.Type); n > 0 {
+						r = fmt.Sprintf("(Gzx.GoM.wrap %d %s)", n, r)
+					}
+					return r, true, nil
+				}
 				a, err := fc.expr(x.Args[0])
 				if err != nil {
 					return "", true, err
@@ -647,6 +660,91 @@ func (fc *fnCtx) mexpr(ex ast.Expr) (string, bool, error) {
 		return fail("call in expression")
 	}
 	return "", false, nil
+}
+
+func isFloat(t types.Type) bool {
+	if t == nil {
+		return false
+	}
+	b, ok := t.Underlying().(*types.Basic)
+	return ok && b.Info()&types.IsFloat != 0
+}
+
+// fexpr translates a float64-valued expression into Lean `Float` (IEEE binary64, the same operations): constants,
+// `float64(<int>)`, + - * /, math.Ceil / Floor / Trunc / Sqrt.  Theorems cannot look inside `Float`: a kernel that
+// acquires float arithmetic keeps its definition, and the theorem about it fails by name.
+func (fc *fnCtx) fexpr(ex ast.Expr) (string, error) {
+	if tv, ok := fc.p.TypesInfo.Types[ex]; ok && tv.Value != nil {
+		r := constant.ToFloat(tv.Value)
+		if r.Kind() == constant.Unknown {
+			return "", fmt.Errorf("float constant")
+		}
+		num, den := constant.Num(r), constant.Denom(r)
+		n, ok1 := constant.Int64Val(num)
+		d, ok2 := constant.Int64Val(den)
+		lim := int64(1) << 53
+		if num.Kind() != constant.Int || den.Kind() != constant.Int || !ok1 || !ok2 || n >= lim || n <= -lim || d >= lim {
+			return "", fmt.Errorf("float constant is not a small rational")
+		}
+		if d == 1 {
+			return fmt.Sprintf("(Float.ofInt (%d))", n), nil
+		}
+		return fmt.Sprintf("(Float.ofInt (%d) / Float.ofInt %d)", n, d), nil
+	}
+	switch x := ex.(type) {
+	case *ast.ParenExpr:
+		return fc.fexpr(x.X)
+	case *ast.BinaryExpr:
+		switch x.Op {
+		case token.ADD, token.SUB, token.MUL, token.QUO:
+			a, err := fc.fexpr(x.X)
+			if err != nil {
+				return "", err
+			}
+			b, err := fc.fexpr(x.Y)
+			if err != nil {
+				return "", err
+			}
+			return fmt.Sprintf("(%s %s %s)", a, x.Op.String(), b), nil
+		}
+	case *ast.UnaryExpr:
+		if x.Op == token.SUB {
+			a, err := fc.fexpr(x.X)
+			if err != nil {
+				return "", err
+			}
+			return "(- " + a + ")", nil
+		}
+	case *ast.CallExpr:
+		if tv, ok := fc.p.TypesInfo.Types[x.Fun]; ok && tv.IsType() && len(x.Args) == 1 && isFloat(tv.Type) {
+			src := fc.p.TypesInfo.TypeOf(x.Args[0])
+			if isFloat(src) {
+				return fc.fexpr(x.Args[0])
+			}
+			if lt, err := leanType(src); err == nil && lt == "Int" {
+				a, err := fc.expr(x.Args[0])
+				if err != nil {
+					return "", err
+				}
+				return "(Float.ofInt " + a + ")", nil
+			}
+		}
+		if sel, ok := x.Fun.(*ast.SelectorExpr); ok && len(x.Args) == 1 {
+			if pk, ok := sel.X.(*ast.Ident); ok {
+				if pn, ok := fc.p.TypesInfo.Uses[pk].(*types.PkgName); ok && pn.Imported().Path() == "math" {
+					fn := map[string]string{"Ceil": "Float.ceil", "Floor": "Float.floor", "Trunc": "Float.trunc", "Sqrt": "Float.sqrt"}[sel.Sel.Name]
+					if fn != "" {
+						a, err := fc.fexpr(x.Args[0])
+						if err != nil {
+							return "", err
+						}
+						return "(" + fn + " " + a + ")", nil
+					}
+				}
+			}
+		}
+	}
+	return "", fmt.Errorf("unsupported float expression %T", ex)
 }
 
 // trivialGetter: the method selected by sel is `func (r *T) M() U { return r.f }` -> "f".
